@@ -31,6 +31,8 @@ from concurrent.futures import ProcessPoolExecutor
 import multiprocessing
 from pathlib import Path
 
+from . import fingerprint
+
 VERIF = Path(__file__).resolve().parents[2]
 LEAN = VERIF / "lean"
 HMODEL = LEAN / ".lake" / "build" / "bin" / "hmodel"
@@ -39,6 +41,7 @@ ALLOWED_AXIOMS = {"propext", "Quot.sound", "Classical.choice"}
 FORBIDDEN = re.compile(r"\bsorry\b|\badmit\b|^\s*axiom\s|native_decide|bv_decide|implemented_by|"
                        r"\bunsafe\s|maxHeartbeats\s+0\b", re.M)
 NCPU = int(os.environ.get("VERIF_JOBS", "16"))
+ESCALATION = 1      # set by run_check: >1 when /repo differs structurally from the registered tree
 
 
 class Infra(Exception):
@@ -297,13 +300,20 @@ def shrink(prop, hyp, case, budget=400):
         return bool(bad_outcomes(outs))
 
     cmds = list(case["cmds"])
+    keep = getattr(prop, "keep_cmd", None)      # protocol commands a case cannot do without
     tries = 0
     n = 2
     while len(cmds) >= 2 and tries < budget:
         chunk = max(1, len(cmds) // n)
         reduced = False
         for start in range(0, len(cmds), chunk):
-            cand = cmds[:start] + cmds[start + chunk:]
+            dropped = cmds[start:start + chunk]
+            if keep is not None:
+                cand = cmds[:start] + [c for c in dropped if keep(c)] + cmds[start + chunk:]
+                if len(cand) == len(cmds):
+                    continue
+            else:
+                cand = cmds[:start] + cmds[start + chunk:]
             if not cand:
                 continue
             tries += 1
@@ -357,8 +367,10 @@ def _shard(args):
             if time.time() > deadline:
                 stats["timeout"] = True
                 break
+            # stop early only on concrete failing inputs: a broken correspondence alone (drift) keeps the
+            # search going, so that a real failing input - if one exists - is what gets reported
             nviol = sum(1 for f in stats["failures"] if any(o["kind"] == "violation" for o in f["outcomes"]))
-            if nviol >= 2 or len(stats["failures"]) >= 8:
+            if nviol >= 2:
                 break
     stats["nontrivial"] = list(stats["nontrivial"])
     return stats
@@ -392,7 +404,10 @@ def _run_batch(prop, hyp, batch, stats):
             elif o.kind == "repaired":
                 stats["repaired"].setdefault(o.finding, {"case": c, "outcome": o.as_dict()})
         if bad_outcomes(outcomes):
-            stats["failures"].append({"case": c, "outcomes": [o.as_dict() for o in bad_outcomes(outcomes)]})
+            is_viol = any(o.kind == "violation" for o in outcomes)
+            ndrift = sum(1 for f in stats["failures"] if not any(o["kind"] == "violation" for o in f["outcomes"]))
+            if is_viol or ndrift < 8:       # keep every failing input, but only the first few drift cases
+                stats["failures"].append({"case": c, "outcomes": [o.as_dict() for o in bad_outcomes(outcomes)]})
 
 
 # ----------------------------------------------------------------------------
@@ -405,15 +420,21 @@ def load_known():
     return json.loads(p.read_text())
 
 
+def out_root():
+    """where evidence/ and replays/ are written: /verif, unless VERIF_OUT redirects them (used when the
+    checks are pointed at a deliberately modified copy of the repository, see harness/seedrun.py)"""
+    return Path(os.environ.get("VERIF_OUT") or VERIF)
+
+
 def write_evidence(prop, ev):
-    d = VERIF / "evidence"
-    d.mkdir(exist_ok=True)
+    d = out_root() / "evidence"
+    d.mkdir(parents=True, exist_ok=True)
     (d / (prop.ID + ".json")).write_text(json.dumps(ev, indent=1, default=str) + "\n")
 
 
 def write_replay(prop, payload):
-    d = VERIF / "replays"
-    d.mkdir(exist_ok=True)
+    d = out_root() / "replays"
+    d.mkdir(parents=True, exist_ok=True)
     h = hashlib.sha1(json.dumps(payload, sort_keys=True, default=str).encode()).hexdigest()[:10]
     p = d / ("%s_%s.json" % (prop.ID, h))
     p.write_text(json.dumps(payload, indent=1, default=str) + "\n")
@@ -461,6 +482,20 @@ def run_check(prop, tier, seed, replay=None):
         if not ok:
             raise Infra("leanchecker rejected %s: %s" % (prop.AUDIT_IMPORTS, out))
         checker_note = "; leanchecker re-checked %s" % ",".join(prop.AUDIT_IMPORTS)
+
+    # ---- did the source change structurally? (more cases if so; not a verdict) ---------------
+    global ESCALATION
+    src_changed = []
+    try:
+        src_changed = fingerprint.changed(REPO, "ALL")
+    except Exception as e:          # a tree that does not parse is not this step's business
+        notes.append("fingerprint step skipped: %r" % (e,))
+    anchored = [c for c in src_changed if c.split(":")[0] in fingerprint.anchored_files(prop.ID)]
+    ESCALATION = 1
+    if src_changed and not replay:
+        ESCALATION = int(os.environ.get("VERIF_ESCALATE", getattr(prop, "ESCALATE", 6)))
+        notes.append("source differs structurally from the registered tree in %d place(s) (%d in this property's "
+                     "anchored files): generating %dx the cases" % (len(src_changed), len(anchored), ESCALATION))
 
     # ---- implementation ----------------------------------------------------
     hyp = load_impl(build_c=getattr(prop, "BUILD_C", False))
@@ -571,8 +606,9 @@ def run_check(prop, tier, seed, replay=None):
                 samples.append(s)
             for payload, suffix in ex.get("violations", []):
                 violations.append((write_replay(prop, payload), suffix))
-        # generated cases
-        ncases = prop.CASES[tier]
+        # generated cases; several times more of them when the source differs structurally from the tree
+        # the check was registered on (lib/fingerprint.py) - never a verdict, only more search
+        ncases = prop.CASES[tier] * ESCALATION
         budget = prop.BUDGET_S[tier] if hasattr(prop, "BUDGET_S") else (50 if tier == "quick" else 780)
         deadline = time.time() + budget
         nshards = min(NCPU, max(1, ncases // 5))
@@ -626,6 +662,7 @@ def run_check(prop, tier, seed, replay=None):
     for line in known_lines:
         print(line)
     seen = set()
+    violations.sort(key=lambda v: 1 if v[1] else 0)     # concrete failing inputs first
     for path, suffix in violations:
         if str(path) in seen:
             continue
@@ -658,6 +695,7 @@ def run_check(prop, tier, seed, replay=None):
             "disagreements_checked": disagreements,
             "known_findings_reproduced": sorted(reproduced),
             "notes": notes,
+            "anchored_source_changed": src_changed[:40],
             "lake_build_s": round(build_s, 2),
         },
         "assumptions": list(getattr(prop, "ASSUMPTIONS", [])),
